@@ -236,8 +236,8 @@ func init() {
 			"refused; s >= L+slack => refusal after the data and nothing stored; s <= L-slack => accepted and stored; every later transaction " +
 			"on the session still works; nothing larger than L+2*slack (trace headers included) is ever found in any mailbox. slack = 512 bytes covers CRLF/LF, " +
 			"terminator, dot-stuffing and header-counting ambiguity. non-trivial = at least one oversized message was transmitted",
-		Real: []string{"pkg/server/smtp", "pkg/message", "stores", "net/textproto"},
-		Stub: []string{"TCP (simnet)", "scheduler", "clock", "disk"},
+		Real:        []string{"pkg/server/smtp", "pkg/message", "stores", "net/textproto"},
+		Stub:        []string{"TCP (simnet)", "scheduler", "clock", "disk"},
 		Assumptions: []string{"'size' of a message is the length of its data; sizes within 512 bytes of the limit are unconstrained"},
 	})
 }
